@@ -80,7 +80,10 @@ class Check(PropertyCheck):
             base = ["version", "getEui64", "incomingMessageHandler", "stackStatusHandler", "messageSentHandler",
                     "invalidCommand", "getConfigurationValue", "trustCenterJoinHandler", "getNetworkParameters",
                     "readCounters"]
-            base = [n for n in base if n in cls.COMMANDS] + rng.sample(names, 8 if tier == "quick" else 30)
+            # responses whose schema is a struct of its own (a status followed by fields that are present only on success) go
+            # through another decoding branch: always included, truncated at every length
+            structs = [n for n in names if not isinstance(cls.COMMANDS[n][2], dict)]
+            base = [n for n in base if n in cls.COMMANDS] + structs + rng.sample(names, 8 if tier == "quick" else 30)
             pend_choices = [None, "getEui64", "same"]
             for name in base:
                 for pend in pend_choices:
@@ -170,6 +173,14 @@ class Check(PropertyCheck):
                         continue
                     for pname in ((None, "getEui64") if sq == 0 else (None,)):
                         cases.append({"v": v, "pending": pname, "prior": 4, "data": fr.hex(), "kind": "after-old-handler", "name": name})
+            # the one response whose value is present only on success (getTokenData, v9..v13: status, then -- iff the status
+            # is SUCCESS -- a value with a 32-bit length): a SUCCESS reply built by hand, truncated at every length
+            if "getTokenData" in cls.COMMANDS and not isinstance(cls.COMMANDS["getTokenData"][2], dict) and v < 14:
+                hdr = valid_frame(inst, "getTokenData", 0, rng, "lo")[:5]
+                full = hdr + b"\x00" + (6).to_bytes(4, "little") + bytes(rng.randrange(256) for _ in range(6))
+                for n in range(5, len(full) + 1):
+                    for pname in (None, "getTokenData"):
+                        cases.append({"v": v, "pending": pname, "data": full[:n].hex(), "kind": "token-success"})
             # EmberKeyStruct's deserialisation quirk: a remainder of exactly 24 bytes is padded (IPad in the model)
             for name in ("getKeyTableEntry", "getKey"):
                 if name in cls.COMMANDS:
@@ -371,6 +382,12 @@ class Check(PropertyCheck):
                 full = et.flat_decodes(et.items_of_schema(rx), data[3 if v == 4 else 5:])
             except et.Unsupported:
                 full = None
+            if own[fid] == "getTokenData" and v < 14:
+                # stated from the EZSP reference, not from the library's schema: status byte, then -- iff it is SUCCESS (0) --
+                # the token value with its 32-bit length
+                pl = data[5:]
+                if len(pl) >= 1 and pl[0] == 0 and not (len(pl) >= 5 and len(pl) >= 5 + int.from_bytes(pl[1:5], "little")):
+                    full = False
             if full is False:
                 return (f"callback {own[fid]} invoked for a frame whose payload ({len(data) - (3 if v == 4 else 5)} bytes) does not "
                         f"decode fully under the schema of version {v}")
